@@ -116,7 +116,7 @@ std::string Bus::describe() const {
 	if (silent) o << "SILENT ";
 	if (capacity != 64) o << "capacity=" << (int) capacity << " ";
 	if (feature_mismatch) o << "feature-mismatch ";
-	if (table_change_at >= 0) o << "table-change-at-row=" << table_change_at << "x" << table_changes_left << " ";
+	if (table_change_at >= 0) o << "table-change-at-row=" << table_change_at << "x" << table_changes_left << (table_change_node ? "-of-node-" + std::to_string(table_change_node) : std::string()) << " ";
 	if (drop_on_change >= 0) o << "node-" << drop_on_change << "-leaves-at-table-change ";
 	return o.str();
 }
@@ -211,11 +211,11 @@ void Bus::handle(const ref::Msg &m) {
 		send_from(idx, M::NODETAB_COUNT, {(uint8_t) (1 + n.children.size())});
 		break;
 	case M::NODETAB_GETNEXT:
-		if (idx == 0 && table_changes_left > 0 && (int) n.tab_pos == table_change_at) {
+		if (idx == table_change_node && table_changes_left > 0 && (int) n.tab_pos == table_change_at) {
 			table_changes_left--;
 			nodetab_version++;
 			n.tab_pos = 0;
-			if (drop_on_change > 0 && drop_on_change < (int) nodes.size() && !nodes[(size_t) drop_on_change].gone) {
+			if (table_change_node == 0 && drop_on_change > 0 && drop_on_change < (int) nodes.size() && !nodes[(size_t) drop_on_change].gone) {
 				// the node (a leaf directly below the root) leaves the bus: that is why the table changed
 				BusNode &g = nodes[(size_t) drop_on_change];
 				g.gone = true;
